@@ -146,3 +146,87 @@ INVARIANTS ReadsInBounds ColsInBounds AcceptedIsUsable EmitDone
                       "expect": "accept" if e["outcome"] == "accept" else ("reject" if e["outcome"] not in ("layout-ok",) else "unknown")})
     ck.sample({"module": "Readers", "edits": em[len(em) // 2]["edits"], "outcome": em[len(em) // 2]["outcome"]})
     return cases
+
+
+def classmap_cases(ck, tier, seed, tmp):
+    """spec/ClassMap.tla instantiated with the class map of a synthesised font (two linear, two lookup classes, Silf v3)."""
+    prog = [{"kind": "sub", "rules": [
+        {"pre": 0, "ctx": [3, 4], "items": [{"op": "subs", "cls": 1, "ref": 0, "adv": -1, "user": -1, "user2": -1, "shift": -1, "att": -1, "attref": -1},
+                                             {"op": "glyph", "cls": 2, "ref": 0, "adv": -1, "user": -1, "user2": -1, "shift": -1, "att": -1, "attref": -1}],
+         "con": {"kind": "none", "item": 0, "val": 0}, "ret": 0}]}]
+    m = gdl.font_model(prog, c06.CLS, c06.ADV, c06.GATTR, 0, nlinear=2)
+    fb = gfont.build_font(m, silf_version=0x00030000)
+    S = sfnt.Sfnt(data=fb)
+    silf = S.table("Silf")
+    F = {name: (off, w) for (t, off, w, name) in fields.silf_fields(silf)}
+    sub = int.from_bytes(silf[12:16], "big")
+    u16 = lambda o: int.from_bytes(silf[o:o + 2], "big")
+    pseudo_at = sub + u16(sub + 6)
+    cm = pseudo_at + 8 + 6 * u16(pseudo_at)
+    passes_start = sub + int.from_bytes(silf[F["s0.oPass0"][0]:F["s0.oPass0"][0] + 4], "big")
+    dlen = passes_start - cm
+    ncls, nlin = u16(cm), u16(cm + 2)
+    offs = [u16(cm + 4 + 2 * i) for i in range(ncls + 1)]
+    cls_off = 4 + 2 * (ncls + 1)
+    data = [u16(cm + cls_off + 2 * i) for i in range((dlen - cls_off) // 2)]
+    name = "ClassMapGen%d" % os.getpid()
+    mod = "---- MODULE %s ----\nEXTENDS ClassMap\nGOffs == %s\nGData == %s\n====\n" % (name, tla_seq(offs), tla_seq(data))
+    cfg = """SPECIFICATION Spec
+CONSTANTS
+  BaseNClass = %d
+  BaseNLinear = %d
+  BaseOffs <- GOffs
+  BaseData <- GData
+  DataLen = %d
+  MaxPerturb = %d
+  Emit = TRUE
+  DropNumIdsTest = FALSE
+INVARIANTS ReadsInBounds DataReadsInBounds AcceptedIsUsable EmitDone
+""" % (ncls, nlin, dlen, 1 if tier == "quick" else 2)
+    mp, cp = os.path.join(vlib.SPEC, name + ".tla"), os.path.join(vlib.SPEC, name + ".cfg")
+    ncp = os.path.join(vlib.SPEC, name + "_neg.cfg")
+    open(mp, "w").write(mod)
+    open(cp, "w").write(cfg)
+    open(ncp, "w").write(cfg.replace("DropNumIdsTest = FALSE", "DropNumIdsTest = TRUE").replace("Emit = TRUE", "Emit = FALSE").replace("MaxPerturb = 2", "MaxPerturb = 1"))
+    out = os.path.join(tmp, "classmap.ndjson")
+    try:
+        r = vlib.tlc(name + ".tla", name + ".cfg", out_file=out, timeout=6000, coverage=False, heap="24g")
+        rn = vlib.tlc(name + ".tla", name + "_neg.cfg", timeout=6000, coverage=False)
+        if rn.violation not in ("AcceptedIsUsable", "DataReadsInBounds", "ReadsInBounds"):
+            raise vlib.Broken("negative control of ClassMap (numIDs-fits test dropped) not refuted: %r" % rn.violation)
+    finally:
+        try:
+            os.remove(ncp)
+        except OSError:
+            pass
+        for f in (mp, cp):
+            try:
+                os.remove(f)
+            except OSError:
+                pass
+    if r.violation:
+        ck.violation("TLC: %s violated in ClassMap (class map reader model)" % r.violation, {"why": "ClassMap model", "trace": vlib.tlc_error_trace(r.out)})
+        return None
+    ck.add_tlc("ClassMap(class map of a synthesised font, %d field(s) rewritten)" % (1 if tier == "quick" else 2), r)
+    import random
+    rnd = random.Random(seed)
+    em = r.emitted
+    if len(em) > (3000 if tier == "quick" else 50000):
+        rnd.shuffle(em)
+        em = em[:(3000 if tier == "quick" else 50000)]
+    cases = []
+    hexfont = fb.hex()
+    for k, e in enumerate(em):
+        patches = []
+        for ed in e["edits"]:
+            off = {"numClass": 0, "numLinear": 2}.get(ed["name"])
+            if ed["name"] == "offset":
+                off = 4 + 2 * (ed["idx"] - 1)
+            elif ed["name"] == "word":
+                off = cls_off + 2 * (ed["idx"] - 1)
+            patches.append(["Silf", cm + off, 2, ed["val"]])
+        cases.append({"id": "cm%d:%s" % (k, "+".join("%s[%d]=%d" % (ed["name"], ed["idx"], ed["val"]) for ed in e["edits"]) or "base"), "font_hex": hexfont,
+                      "patches": patches, "opts": [k % 8], "text": [100, 102, 101, 102, 97], "expect": "accept" if e["outcome"] == "accept" else "reject"})
+    if em:
+        ck.sample({"module": "ClassMap", "edits": em[len(em) // 2]["edits"], "outcome": em[len(em) // 2]["outcome"]})
+    return cases
